@@ -75,6 +75,13 @@ def check(run):
                 lst = g._vertices
                 lst[-1], lst[-2] = lst[-2], lst[-1]
                 stats['vertex_list_reordered_after_construction'] = stats.get('vertex_list_reordered_after_construction', 0) + 1
+            if stats['runs'] % 5 == 2:
+                # Far-frame dimension: the whole map sits ~3e4 units from the origin (a translation of the world frame changes no measurement):
+                # stationary points, iterates and the relative stopping rule do not depend on where the origin is
+                for v in g._vertices:
+                    dd = B.DIM[B.KIND_OF[type(v.pose)]]
+                    v.pose[:dd] = np.asarray(v.pose)[:dd] + np.array([1.0e4, -2.0e4, 3.0e4][:dd])
+                stats['runs_in_a_far_frame'] = stats.get('runs_in_a_far_frame', 0) + 1
             truth = [v.pose.copy() for v in g._vertices]
             # initial guess inside the calibrated neighbourhood: translation <= 0.3 per axis, rotation <= 0.15 rad
             for j, v in enumerate(g._vertices):
@@ -110,7 +117,14 @@ def check(run):
             except Exception as ex:  # noqa
                 run.violation(dict(key, outcome='raised'), 'optimize raised %r' % (ex,), dict(case=cc))
                 continue
-            if not ret.converged:
+            coordmax = max(float(np.max(np.abs(np.asarray(v.pose, dtype=float)[:B.DIM[B.KIND_OF[type(v.pose)]]]))) for v in g._vertices)
+            wm = max(sum(abs(x) for x in row) for e in cc['edges'] for row in e['W']) * sc
+            rounding_floor = len(cc['edges']) * wm * (64 * np.finfo(float).eps * (1.0 + coordmax)) ** 2
+            if not ret.converged and chi_star == 0 and float(ret.final_chi2) <= rounding_floor:
+                # chi^2 has reached the level of the rounding of the coordinates (exact optimum 0): there the RELATIVE test is decided by noise and
+                # the `converged` flag says nothing -- the state is judged below like a converged one
+                stats['runs_ending_at_the_rounding_floor'] = stats.get('runs_ending_at_the_rounding_floor', 0) + 1
+            elif not ret.converged:
                 # "max_iter large enough": Gauss-Newton converges only linearly at an optimum with non-zero residual; let the run continue
                 # (the report of the first call is still checked below against calc_chi2 before the continuation)
                 first = ret
